@@ -1484,8 +1484,7 @@ impl Vm {
       return signal;
     }
 
-    #[cfg(debug_assertions)]
-    let roots_before = self.gc().temp_roots();
+    let roots_before = self.gc.borrow().temp_roots();
 
     match native.environment() {
       NativeEnvironment::StackLess => match native.call(&mut Hooks::new(self), args) {
@@ -1500,7 +1499,10 @@ impl Vm {
           }
           ExecutionSignal::OkReturn
         },
-        Call::Err(LyError::Err(error)) => self.set_error(error),
+        Call::Err(LyError::Err(error)) => {
+          self.release_native_roots(roots_before);
+          self.set_error(error)
+        },
         Call::Err(LyError::Exit(code)) => self.set_exit(code),
       },
       NativeEnvironment::Normal => {
@@ -1542,12 +1544,24 @@ impl Vm {
             }
             ExecutionSignal::OkReturn
           },
-          Call::Err(LyError::Err(error)) => self.set_error(error),
+          Call::Err(LyError::Err(error)) => {
+            self.release_native_roots(roots_before);
+            self.set_error(error)
+          },
           Call::Err(LyError::Exit(code)) => self.set_exit(code),
         }
       },
     }
   }}
+
+  /// A native that leaves through `?` does not get to release the
+  /// temporary roots it pushed. They would stay registered for good
+  fn release_native_roots(&mut self, roots_before: usize) {
+    let roots_current = self.gc.borrow().temp_roots();
+    if roots_current > roots_before {
+      self.pop_roots(roots_current - roots_before);
+    }
+  }
 
   /// call a laythe function setting it as the new call frame
   unsafe fn call_closure(&mut self, closure: ObjRef<Closure>, arg_count: u8) -> ExecutionSignal { unsafe {
